@@ -37,7 +37,7 @@ func handleRequestID(r *http.Request, w http.ResponseWriter, cfg config.LoggingC
 		return ""
 	}
 
-	requestID := strings.TrimSpace(r.Header.Get(header))
+	requestID := trimHeaderValue(r.Header.Get(header))
 	if requestID == "" {
 		requestID = generateIdentifier("req")
 		r.Header.Set(header, requestID)
@@ -51,13 +51,20 @@ func handleTraceID(r *http.Request, w http.ResponseWriter, cfg config.LoggingCon
 		return ""
 	}
 
-	traceID := strings.TrimSpace(r.Header.Get(header))
+	traceID := trimHeaderValue(r.Header.Get(header))
 	if traceID == "" {
 		traceID = generateIdentifier("trace")
 		r.Header.Set(header, traceID)
 	}
 	w.Header().Set(header, traceID)
 	return traceID
+}
+
+// trimHeaderValue removes the optional white space HTTP allows around a field
+// value (space and tab). Anything else, including Unicode white space such as
+// U+00A0, is part of the identifier the client sent and is passed on as it is.
+func trimHeaderValue(v string) string {
+	return strings.Trim(v, " \t")
 }
 
 func enrichLogger(ctx context.Context, requestID, traceID string) *zerolog.Logger {
